@@ -419,6 +419,57 @@ func c17step(ins inspector.StringsInspector, v *c17val, buf *inspector.ByteBuffe
 		return c17err(detail, err) + ",[" + strings.Join(it.visits, "/") + "]"
 	case "e", "E":
 		y := c17parse(f[1])
+		// when one operand's content is a strict prefix of the other's (same representation), build the shorter
+		// one as a reslice of the longer: DeepEqual must not take shared storage for equality
+		if v.rep == y.rep && v.form != 'F' && y.form != 'F' {
+			// (v keeps its length, capacity and element headers exactly: only the backing array is shared)
+			if v.rep == 'S' && len(v.ss) > 0 && len(y.ss) > 0 && len(v.ss) != len(y.ss) {
+				n := len(v.ss)
+				if len(y.ss) < n {
+					n = len(y.ss)
+				}
+				pre := true
+				for i := 0; i < n; i++ {
+					pre = pre && v.ss[i] == y.ss[i]
+				}
+				if pre && len(y.ss) < len(v.ss) {
+					y.ss = v.ss[:len(y.ss)]
+				} else if pre {
+					c := cap(v.ss)
+					if c < len(y.ss) {
+						c = len(y.ss)
+					}
+					nb := make([]string, len(y.ss), c)
+					copy(nb, y.ss)
+					copy(nb, v.ss)
+					y.ss = nb
+					v.ss = nb[:len(v.ss):cap(v.ss)]
+				}
+			}
+			if v.rep == 'P' && len(v.pp) > 0 && len(y.pp) > 0 && len(v.pp) != len(y.pp) {
+				n := len(v.pp)
+				if len(y.pp) < n {
+					n = len(y.pp)
+				}
+				pre := true
+				for i := 0; i < n; i++ {
+					pre = pre && string(v.pp[i]) == string(y.pp[i])
+				}
+				if pre && len(y.pp) < len(v.pp) {
+					y.pp = v.pp[:len(y.pp)]
+				} else if pre {
+					c := cap(v.pp)
+					if c < len(y.pp) {
+						c = len(y.pp)
+					}
+					nb := make([][]byte, len(y.pp), c)
+					copy(nb, y.pp)
+					copy(nb, v.pp)
+					y.pp = nb
+					v.pp = nb[:len(v.pp):cap(v.pp)]
+				}
+			}
+		}
 		var r bool
 		if f[0] == "E" {
 			r = ins.DeepEqualWithOptions(v.arg(), y.arg(), nil)
